@@ -8,7 +8,7 @@ use emit::Frame;
 
 use crate::exec::{alternating, block_on, catch_fut, catch_planned, join, planned_panic, yield_now, BoxFut};
 use crate::rt::Rt;
-use crate::tree::{Form, IdForm, Incoming, PItem, PNode};
+use crate::tree::{Form, IdForm, Incoming, PItem, PNode, RunHow};
 
 /// `SpanCtxt::current(rt.ctxt())` at check point `id`.
 #[derive(Debug, Clone, PartialEq, Eq)]
@@ -24,7 +24,12 @@ pub struct Env<'a> {
     pub obs: &'a Mutex<Vec<Obs>>,
     /// first panic caught on a hop thread (signature, message)
     pub fail: &'a Mutex<Option<vcore::Fail>>,
+    /// frames captured by `CaptureFrame` items, by slot, until a `RunFrame` takes them
+    pub frames: &'a [Mutex<Option<CapturedFrame>>],
 }
+
+/// (the ctxt is `Copy`: the frame owns a copy, so it borrows nothing)
+pub type CapturedFrame = Frame<emit::platform::thread_local_ctxt::ThreadLocalCtxt>;
 
 /// reserved check id: the ambient context of a fresh poll thread right after a poll that ran there
 pub const POLL_THREAD_END: usize = usize::MAX;
@@ -291,6 +296,36 @@ pub fn run_sync(env: &Env, items: &[PItem]) {
                 let _ = catch_planned(|| run_sync(env, items));
                 check(env, *post);
             }
+            PItem::CaptureFrame { slot, props } => capture_frame(env, *slot, *props),
+            PItem::RunFrame { frame, how, items, pre, end, post } => {
+                match frame.and_then(|f| env.frames[f].lock().unwrap().take()) {
+                    None if *how == RunHow::OtherThread => run_frame_elsewhere(env, None, items, *pre, *end),
+                    None => {
+                        check(env, *pre);
+                        run_sync(env, items);
+                    }
+                    Some(frame) => match how {
+                        RunHow::Call => frame.call(|| {
+                            check(env, *pre);
+                            run_sync(env, items)
+                        }),
+                        RunHow::EnterGuard => {
+                            let mut frame = frame;
+                            let _entered = frame.enter();
+                            check(env, *pre);
+                            run_sync(env, items)
+                        }
+                        RunHow::InFuture => block_on(frame.in_future(async {
+                            check(env, *pre);
+                            run_async(env, items).await
+                        })),
+                        RunHow::OtherThread => run_frame_elsewhere(env, Some(frame), items, *pre, *end),
+                    },
+                }
+                if let Some(post) = post {
+                    check(env, *post);
+                }
+            }
             PItem::Event { id } => event(env, *id),
             PItem::Check { id } => check(env, *id),
             PItem::Yield => {}
@@ -320,6 +355,41 @@ pub fn run_async<'a>(env: &'a Env<'a>, items: &'a [PItem]) -> BoxFut<'a> {
                 PItem::Catch { items, post } => {
                     catch_fut(run_async(env, items)).await;
                     check(env, *post);
+                }
+                PItem::CaptureFrame { slot, props } => capture_frame(env, *slot, *props),
+                PItem::RunFrame { frame, how, items, pre, end, post } => {
+                    match frame.and_then(|f| env.frames[f].lock().unwrap().take()) {
+                        None if *how == RunHow::OtherThread => run_frame_elsewhere(env, None, items, *pre, *end),
+                        None => {
+                            check(env, *pre);
+                            run_async(env, items).await;
+                        }
+                        Some(frame) => match how {
+                            // synchronous ways of entering run their items within this poll
+                            RunHow::Call => frame.call(|| {
+                                check(env, *pre);
+                                run_sync(env, items)
+                            }),
+                            RunHow::EnterGuard => {
+                                let mut frame = frame;
+                                let _entered = frame.enter();
+                                check(env, *pre);
+                                run_sync(env, items)
+                            }
+                            RunHow::InFuture => {
+                                frame
+                                    .in_future(async {
+                                        check(env, *pre);
+                                        run_async(env, items).await
+                                    })
+                                    .await
+                            }
+                            RunHow::OtherThread => run_frame_elsewhere(env, Some(frame), items, *pre, *end),
+                        },
+                    }
+                    if let Some(post) = post {
+                        check(env, *post);
+                    }
                 }
                 PItem::Event { id } => event(env, *id),
                 PItem::Check { id } => check(env, *id),
@@ -394,6 +464,45 @@ fn hop(env: &Env, carry: bool, fut: bool, items: &[PItem], pre: usize, end: usiz
             *slot = Some(f);
         }
     }
+}
+
+// ---------------------------------------------------------------------------------------------
+// non-span frames captured at one point and entered at another
+
+fn capture_frame(env: &Env, slot: usize, props: bool) {
+    let ctxt = *env.rt.ctxt();
+    let frame = if props {
+        let job = slot as u64;
+        Frame::push(ctxt, emit::props! { job })
+    } else {
+        Frame::current(ctxt)
+    };
+    *env.frames[slot].lock().unwrap() = Some(frame);
+}
+
+fn run_frame_elsewhere(env: &Env, frame: Option<CapturedFrame>, items: &[PItem], pre: usize, end: Option<usize>) {
+    let r = std::thread::scope(|s| {
+        s.spawn(move || {
+            vcore::catch(move || {
+                // entering the frame is this thread's first act; a planned panic in the body is caught here
+                let _ = catch_planned(|| {
+                    let body = || {
+                        check(env, pre);
+                        run_sync(env, items)
+                    };
+                    match frame {
+                        Some(frame) => frame.call(body),
+                        None => body(),
+                    }
+                });
+                if let Some(end) = end {
+                    check(env, end);
+                }
+            })
+        })
+        .join()
+    });
+    park(env, r);
 }
 
 // ---------------------------------------------------------------------------------------------
